@@ -281,12 +281,13 @@ func (a *AnySchema) checkAndConvert(data any) (any, error) {
 		return result, nil
 	case reflect.Map:
 		result := make(map[any]any, t.Len())
-		for _, k := range t.MapKeys() {
+		// MapRange rather than MapKeys + MapIndex: a NaN key is never found again by MapIndex.
+		for iter := t.MapRange(); iter.Next(); {
+			k, v := iter.Key(), iter.Value()
 			key, err := a.checkAndConvert(k.Interface())
 			if err != nil {
 				return nil, ConstraintErrorAddPathSegment(err, fmt.Sprintf("{%v}", k))
 			}
-			v := t.MapIndex(k)
 			value, err := a.checkAndConvert(v.Interface())
 			if err != nil {
 				return nil, ConstraintErrorAddPathSegment(err, fmt.Sprintf("[%v]", key))
